@@ -113,6 +113,28 @@ def case(spec, log):
                     log.ev('run', run=rid, outcome='raised:' + type(r.exc).__name__, n=n, results=part if part is not None else None, alive=[w.is_alive() for _, w in all_workers], poison=poison, live_at_start=live_at_start)
                 else:
                     log.ev('run', run=rid, outcome='returned', n=n, results=r, poison=poison, live_at_start=live_at_start)
+            elif name == 'run_abort':
+                # the run is left by an exception of the user's own callback while results are still outstanding
+                run_no += 1
+                n, at = op[1], op[2]
+                rid = run_no
+                seen = [0]
+
+                class UserAbort(Exception):
+                    pass
+
+                def cb2(worker, event, *a):
+                    cb(worker, event, *a)
+                    if event == 'finished':
+                        seen[0] += 1
+                        if seen[0] == at:
+                            raise UserAbort('callback gives up')
+                inputs = [[rid, i, False] for i in range(n)]
+                r = bounded('run', lambda: p.run(iter(inputs), worker_callback=cb2, worker_extra_pending_inputs=op[3] if len(op) > 3 else 1), 90)
+                if r is HANG:
+                    p._map_guard = False
+                log.ev('run', run=rid, abort=True, outcome=('hang' if r is HANG else 'raised:' + type(r.exc).__name__ if isinstance(r, Raised) else 'returned'), n=n, results=None, poison=[], live_at_start=0,
+                       pending_after=p._pending)
             elif name == 'restart':
                 r = bounded('restart_workers', lambda: p.restart_workers(timeout=1), 90)
                 log.ev('restart', outcome=('hang' if r is HANG else 'raised:' + type(r.exc).__name__ if isinstance(r, Raised) else 'ok'))
@@ -194,6 +216,8 @@ def gen_history(r):
             n = r.randint(0, 14)
             poison = sorted(set(r.randrange(max(1, n)) for _ in range(r.choice([0, 0, 0, 1]))))
             ops.append(['run', n, poison, r.randint(0, 2)] + ([poison] if poison and r.random() < 0.4 else []))
+        elif x < 0.44 and not stuck:
+            ops.append(['run_abort', r.randint(3, 10), r.randint(1, 2), r.randint(1, 2)])
         elif x < 0.50:
             ops.append(['add', r.choice(KINDS)] + (['rejected'] if r.random() < 0.4 else []))
         elif x < 0.58:
@@ -247,28 +271,51 @@ def judge(chk, spec, res):
         probs.append('worker-alive-after-pool-left')
     has_stuck = any(o[0] == 'stick' for o in spec['ops'])
     # per-run result multisets
+    aborted_before = False
+    after_abort = []       # problems of runs that follow a run left through the user's own exception
     for e in evs:
         if e.get('ev') != 'run':
             continue
         chk.count('runs')
+        rp = []
         if e['outcome'] == 'hang':
             if not has_stuck:
-                probs.append('run-blocks')
-            continue
-        # a run with harmless inputs on a pool that has live workers (nobody is killed during a run) must complete:
-        # the pool stays usable whatever earlier runs went through
-        if e['outcome'].startswith('raised') and not e.get('poison') and e.get('live_at_start', 0) >= 1 and not has_stuck:
-            probs.append('harmless-run-on-live-pool-%s' % e['outcome'])
-        vals = e.get('results')
-        if vals is None:
-            continue
-        ids = [tuple(v[1][:2]) if isinstance(v, list) and len(v) > 1 and isinstance(v[1], list) else None for v in vals]
-        if any(i is None or i[0] != e['run'] for i in ids):
-            probs.append('run-returned-results-of-another-run')
-        if len(set(ids)) != len(ids):
-            probs.append('duplicate-result-in-run')
-        if e['outcome'] == 'returned' and sorted(i[1] for i in ids if i) != list(range(e['n'])):
-            probs.append('returned-run-misses-inputs')
+                rp.append('run-blocks')
+        elif e.get('abort'):
+            if e['outcome'] == 'returned':
+                chk.count('abort_not_reached')
+            elif e['outcome'] != 'raised:UserAbort':
+                rp.append('aborted-run-%s' % e['outcome'])
+            else:
+                chk.count('runs_aborted_with_results_outstanding' if e.get('pending_after') else 'runs_aborted_without_outstanding_results')
+        else:
+            # a run with harmless inputs on a pool that has live workers (nobody is killed during a run) must complete:
+            # the pool stays usable whatever earlier runs went through
+            if e['outcome'].startswith('raised') and not e.get('poison') and e.get('live_at_start', 0) >= 1 and not has_stuck:
+                rp.append('harmless-run-on-live-pool-%s' % e['outcome'])
+            vals = e.get('results')
+            if vals is not None:
+                ids = [tuple(v[1][:2]) if isinstance(v, list) and len(v) > 1 and isinstance(v[1], list) else None for v in vals]
+                if any(i is None or i[0] != e['run'] for i in ids):
+                    rp.append('run-returned-results-of-another-run')
+                if len(set(ids)) != len(ids):
+                    rp.append('duplicate-result-in-run')
+                if e['outcome'] == 'returned' and sorted(i[1] for i in ids if i) != list(range(e['n'])):
+                    rp.append('returned-run-misses-inputs')
+        if aborted_before and not e.get('abort'):
+            after_abort += rp
+        else:
+            probs += rp
+        if e.get('abort') and e['outcome'] == 'raised:UserAbort' and e.get('pending_after'):
+            aborted_before = True
+    if after_abort and not probs:
+        # mechanism: results of the aborted run are still in the workers' pipes when the next run starts
+        sym = 'internal-error' if any(x.startswith('harmless-run-on-live-pool-raised') and 'PoolError' not in x for x in after_abort) else \
+              'blocks' if 'run-blocks' in after_abort else 'poolerror' if any('PoolError' in x for x in after_abort) else 'foreign-or-missing-results'
+        chk.violation('run-after-aborted-run:%s' % sym, 'history %s: a run that follows a run left through the user callback\'s exception with results outstanding: %s' % (short(spec['ops'], 300), ', '.join(sorted(set(after_abort)))),
+                      {'spec': spec, 'runs': [e for e in evs if e.get('ev') == 'run'], 'stderr': res['stderr'][-300:]})
+        return
+    probs += after_abort
     for e in evs:
         if e.get('ev') == 'attach_refused' and e['waitable']:
             probs.append('attach-of-waitable-worker-refused')
@@ -295,7 +342,7 @@ def judge(chk, spec, res):
 def run(tier):
     thorough = tier == 'thorough'
     chk = Check('C09', 'exploration', tier,
-                'seeded histories (<= ~8 operations) over {add_worker(thread/process/remote), add_worker with refused registration, attach, run(n inputs, poison, extra pending), restart_workers, SIGKILL a worker, stuck worker, worker that dies of its input while its child process lingers, '
+                'seeded histories (<= ~8 operations) over {add_worker(thread/process/remote), add_worker with refused registration, attach, run(n inputs, poison, extra pending), restart_workers, runs left through an exception of the user callback with results outstanding, SIGKILL a worker, stuck worker, worker that dies of its input while its child process lingers, '
                 'leave by __exit__ / __exit__ with exception / close / terminate} x close_timeout {0.2, 1} x force {None, True}, each in its own session; distinct non-trivial = distinct histories')
     r = rng('c09')
     jobs = [gen_history(r) for _ in range(400 if thorough else 90)]
@@ -308,6 +355,11 @@ def run(tier):
                     continue
                 jobs.append(dict(ops=[['add', k] for k in kinds] + [['run', 5, [2], 0, [2]]] + tail + [['leave', leave]], close_timeout=r.choice([0.2, 1]), force=r.choice([None, True]) if 'THREAD' not in kinds else None))
     jobs = [j for j in jobs if j]
+    # a run left through an exception of the user's callback with results outstanding, then the pool is left / used again
+    for kinds in (['PROCESS', 'REMOTE', 'THREAD'], ['PROCESS', 'PROCESS'], ['REMOTE']):
+        for leave in ('exit', 'exit-exc', 'close', 'terminate'):
+            jobs.append(dict(ops=[['add', k] for k in kinds] + [['run_abort', 8, 1, 2], ['leave', leave]], close_timeout=1, force=None))
+        jobs.append(dict(ops=[['add', k] for k in kinds] + [['run_abort', 8, 2, 1], ['run', 5, [], 1], ['leave', 'exit']], close_timeout=1, force=None))
     wd = workdir('c09')
 
     def one(ij):
